@@ -897,7 +897,9 @@ Definition is_OM_begin (n : stepname) (r : orec) : bool :=
           6 after teardown a started call is still pending and not cancelled
           7 built-in work (run event) not between the negative and non-negative hooks
           8 crash or hang
-          9 a well-formed trigger expression was not read as name, signed weight (see below)  *)
+          9 a well-formed trigger expression was not read as name, signed weight (see below)
+         10 a call left callsPendingAwait during an operation (taken as collected) although its
+            function had not returned by the end of the operation                            *)
 
 Definition op_event (o : op) : option evt :=
   match o_kind o with OEvent e => Some e | OForceError => Some GO_ERROR | _ => None end.
@@ -964,9 +966,14 @@ Definition lone_later_weight (hooks : list hook) (hk : hook) : bool :=
   negb (existsb (fun h => point_eqb (h_trig h) (am, aw)) hooks).
 
 Definition await_code (hooks : list hook) (e : evt) (src dst : st) (recs_this_and_before : list orec)
-           (recs : list orec) (opi : N) (pend_before : list (point * (N * N) * bool)) : N :=
+           (recs : list orec) (opi : N) (pend_before pend_after : list (point * (N * N) * bool)) : N :=
   let check (x : N * N) (hk : hook) (same_op : bool) : N :=
     let '(am, aw) := h_await hk in
+    (* a step that ended with an error stopped at the failing weight: of the calls awaited in it
+       only those that were taken out of the pending set are known to have been passed *)
+    if existsb (fun r => match r with OM n' true => stepname_eqb (SMoment am) n' | _ => false end) recs &&
+       existsb (fun p => id_eqb (snd (fst p)) x) pend_after
+    then 0 else
     match phase_of e src dst am with
     | None => 0
     | Some pa =>
@@ -1013,6 +1020,16 @@ Definition builtin_split_ok (hooks : list hook) (e : evt) (recs : list orec) : b
 Definition first_nonzero (l : list N) : N :=
   fold_left (fun acc c => if acc =? 0 then c else acc) l 0.
 
+(* code 10: collect-or-cancel accounting.  A call that was pending before the operation or was
+   started in it, and is no longer in callsPendingAwait afterwards, has been taken as collected:
+   its function must have returned by the end of the operation *)
+Definition dropped_returned_ok (before recs : list orec) (opi : N)
+           (pend_before pend_after : list (point * (N * N) * bool)) : bool :=
+  let started := flat_map (fun r => match r with OS h o _ => if o =? opi then [(h, o)] else [] | _ => [] end) recs in
+  let cand := started ++ map (fun p => snd (fst p)) pend_before in
+  forallb (fun x => existsb (fun p => id_eqb (snd (fst p)) x) pend_after ||
+                    existsb (is_OE x) (before ++ prefix_until (fun r => match r with OX => true | _ => false end) recs)) cand.
+
 (* walk over the operations with the observed state before each *)
 Fixpoint mon08_ops (hooks : list hook) (ops : list op) (oos : list opobs) (segs : list (list orec))
          (before : list orec) (src : st) (pend : list (point * (N * N) * bool)) (opi : N) : N :=
@@ -1028,7 +1045,7 @@ Fixpoint mon08_ops (hooks : list hook) (ops : list op) (oos : list opobs) (segs 
               (if weight_order_ok hooks e src dst recs then 0 else 2);
               (match oo_res oo with XOk => if steps_ok e src dst recs then 0 else 3 | _ => 0 end);
               (if builtin_split_ok hooks e recs then 0 else 7);
-              await_code hooks e src dst before recs opi pend ]
+              await_code hooks e src dst before recs opi pend (oo_pend oo) ]
         | None => 0
         end
       | None =>
@@ -1036,8 +1053,8 @@ Fixpoint mon08_ops (hooks : list hook) (ops : list op) (oos : list opobs) (segs 
           if forallb (fun p => snd p) (oo_pend oo) then 0 else 6
         else 0
       end in
-    (* code 5 (a recorded finding) does not hide what the later operations show *)
-    if (c =? 0) || (c =? 5) then
+    let c := if c =? 0 then (if dropped_returned_ok before recs opi pend (oo_pend oo) then 0 else 10) else c in
+    if (c =? 0) then
       let r := mon08_ops hooks ops' oos' segs' (before ++ recs) (oo_state oo) (oo_pend oo) (N.succ opi) in
       if r =? 0 then c else r
     else c
